@@ -82,6 +82,54 @@ func runSel(c SelCase) []ev.Violation {
 			return []ev.Violation{{Sig: "selector-returns-non-routable/" + c.Strategy + "/" + c.EPs[idx].Status, Detail: fmt.Sprintf("%+v -> member %d", c.EPs, idx)}}
 		}
 	}
+	// the selector is shared by all requests in flight, and their candidate lists differ (another
+	// provider route, another model): several goroutines select at once, each over a list of its
+	// own, and each must get a routable member of ITS list
+	if len(routable) > 0 {
+		var wg sync.WaitGroup
+		var mu sync.Mutex
+		var cv []ev.Violation
+		for g := 0; g < 4; g++ {
+			wg.Add(1)
+			go func(g int) {
+				defer wg.Done()
+				own := gen.Build(c.EPs, fmt.Sprintf("c03g%d", g)) // same shape, different endpoints
+				if g%2 == 1 && len(own) > 1 {
+					own = own[1:]
+				}
+				anyRoutable := false
+				for _, e := range own {
+					if gen.IsRoutable(string(e.Status)) {
+						anyRoutable = true
+					}
+				}
+				for k := 0; k < 200; k++ {
+					got, err := sel.Select(context.Background(), own)
+					if !anyRoutable {
+						continue
+					}
+					member := false
+					for _, e := range own {
+						if e == got {
+							member = true
+						}
+					}
+					if err != nil || !member || !gen.IsRoutable(string(got.Status)) {
+						mu.Lock()
+						if len(cv) == 0 {
+							cv = append(cv, ev.Violation{Sig: "selector-concurrent-returns-non-member/" + c.Strategy, Detail: fmt.Sprintf("goroutine %d selecting over its own list of %d endpoints (shape %+v) while 3 others select over theirs got %+v, %v", g, len(own), c.EPs, got, err)})
+						}
+						mu.Unlock()
+						return
+					}
+				}
+			}(g)
+		}
+		wg.Wait()
+		if len(cv) > 0 {
+			return cv
+		}
+	}
 	return nil
 }
 
@@ -107,13 +155,13 @@ func genHist(t *rapid.T) HistCase {
 		N:        rapid.IntRange(1, 4).Draw(t, "n")}
 	k := rapid.IntRange(3, 25).Draw(t, "nops")
 	for i := 0; i < k; i++ {
-		kind := rapid.SampledFrom([]string{"set", "set", "down", "up", "request", "request", "request", "healthcheck", "break", "mend"}).Draw(t, "kind")
+		kind := rapid.SampledFrom([]string{"set", "set", "down", "up", "request", "request", "request", "healthcheck", "break", "mend", "sick", "well"}).Draw(t, "kind")
 		op := Op{Kind: kind}
 		switch kind {
 		case "set":
 			op.EP = rapid.IntRange(0, c.N-1).Draw(t, "ep")
 			op.Status = string(rapid.SampledFrom(gen.Statuses).Draw(t, "status"))
-		case "down", "up", "break", "mend":
+		case "down", "up", "break", "mend", "sick", "well":
 			op.EP = rapid.IntRange(0, c.N-1).Draw(t, "ep")
 		}
 		c.Ops = append(c.Ops, op)
@@ -161,6 +209,12 @@ func runHist(c HistCase) []ev.Violation {
 	status := make([]domain.EndpointStatus, c.N) // reference model
 	up := make([]bool, c.N)
 	broken := make([]bool, c.N) // the backend resets the connection after the head and part of the body
+	sick := make([]bool, c.N)   // the backend answers its health check with 503
+	defer func() {
+		for i := 0; i < c.N; i++ {
+			r.Raw[i].HealthStatus.Store(200)
+		}
+	}()
 	failedChecks := make([]int, c.N)
 	for i := range status {
 		status[i], up[i] = domain.StatusHealthy, true
@@ -224,6 +278,14 @@ func runHist(c HistCase) []ev.Violation {
 				{Op: "body", N: 100}, {Op: "pause", Ms: 5}, {Op: "rst"}}})
 			broken[op.EP] = true
 			trace = append(trace, fmt.Sprintf("break(%d)", op.EP))
+		case "sick":
+			r.Raw[op.EP].HealthStatus.Store(503)
+			sick[op.EP] = true
+			trace = append(trace, fmt.Sprintf("sick(%d)", op.EP))
+		case "well":
+			r.Raw[op.EP].HealthStatus.Store(200)
+			sick[op.EP] = false
+			trace = append(trace, fmt.Sprintf("well(%d)", op.EP))
 		case "mend":
 			r.Raw[op.EP].SetScript(backend.OK(200, [][2]string{{"Content-Type", "application/json"}}, 32, "cl", r.Raw[op.EP].ID))
 			broken[op.EP] = false
@@ -300,6 +362,11 @@ func runHist(c HistCase) []ev.Violation {
 			for i := range status {
 				now := st[names[i]]
 				switch {
+				case up[i] && sick[i]:
+					failedChecks[i]++
+					if gen.IsRoutable(string(now)) {
+						vs = append(vs, ev.Violation{Sig: "health-check-admits-endpoint-answering-503", Detail: fmt.Sprintf("endpoint %d answers its health check with 503 but is %q after RunHealthCheck; history %v", i, now, trace)})
+					}
 				case !up[i]:
 					failedChecks[i]++
 					if gen.IsRoutable(string(now)) {
